@@ -21,6 +21,17 @@ def run_property(prop, tier, report):
     if summary is None or summary.get("pairs", 0) == 0:
         raise ToolError("tgtcheck replayed nothing")
     report.add_findings(findings, "tgtcheck")
+    # worlds with `use`d interfaces, resources, includes: every world's component of the declaration
+    # universe (spec/Decl.tla) against every world of its package
+    from . import decl
+    dpath, dstats = decl.artefacts(tier)
+    try:
+        f2, s2 = pipe_gz_to([hbin("declcheck"), "--data", os.path.join(HARNESS, "data"), "--prop", "C11"], [dpath], timeout=3600)
+    except ToolError as e:
+        if "rc=3" in str(e):
+            raise ToolError("spec/Decl.tla's conformance disagrees with the reference validator (a defect of the specification):\n" + str(e))
+        raise
+    report.add_findings(f2, "declcheck-targets")
     with open(os.path.join(HARNESS, "data", "wacpool.json")) as f:
         pool = json.load(f)
     cov = report.coverage
@@ -33,6 +44,7 @@ def run_property(prop, tier, report):
     cov["standalone_checks"] = summary["standalone_checks"]
     cov["reference_subtype_checks"] = summary["reference_checks"]
     cov["worlds"] = sorted(pool["worlds"].keys())
+    cov["declaration_universe_world_pairs"] = s2["worlds"]
     cov["exhaustive"] = True
     cov["rule"] = (f"every well-formed program of up to {4 if tier == 'quick' else 6} statements over the 17 statements selected for "
                    "C11 (imports of the right type, the wrong type and outside the world; instantiations leaving different "
@@ -42,7 +54,10 @@ def run_property(prop, tier, report):
                    "against the world and TLC checks that conformance is component subtyping (Types.tla Sub); the harness "
                    "resolves the document with the `targets` clause (Ok iff conforming, else a diagnostic of a violation "
                    "present), runs wac_types::validate_target on the encoded output (exact violation sets) and asks "
-                   "wasmparser whether output <: world (equal to conformance under exact names)")
+                   "wasmparser whether output <: world (equal to conformance under exact names); in addition every world of the "
+                   "declaration universe (used interfaces, resources, includes with renames, versions) is turned into a real "
+                   "component and checked with validate_target against every world of its package: the verdict must be "
+                   "Decl.tla's ConformsTo, which for resource-free packages must also be wasmparser's component subtyping")
     cov["samples"] = [{"world": "wv", "text": ["let v = new test:vcons { ... };", "export v.run;"],
                        "meaning": "imports ns:v/i@1.0.0 against a world importing ns:v/i@1.2.0"}]
     report.assumptions.append("worlds come from WIT packages without resources and without `use`d interfaces; "
